@@ -68,11 +68,21 @@ class ObsHarness(planh.PlanHarness):
         self.state = {i: (None if v == "missing" else (1, planh.Val(i, (), ()))) for i, v in self.stored.items()}
         return ctx
 
-    def make_recorder_id(self, s, rid, fail_enter=False):
+    def make_recorder_id(self, s, rid, fail_enter=False, fresh_ids=None):
+        """fresh_ids: a list used as counter - every observer instance gets its own id (observers are single-use)."""
         from uberjob.progress import Progress, ProgressObserver
 
         class Recorder(ProgressObserver):
+            def __init__(self_):
+                nonlocal rid
+                if fresh_ids is not None:
+                    fresh_ids.append(len(fresh_ids))
+                    self_.rid = (rid_base, fresh_ids[-1])
+                else:
+                    self_.rid = rid_base
+
             def __enter__(self_):
+                rid = self_.rid
                 s.log("obsid", rid, "enter")
                 e1.hpoint("obs.enter")
                 if fail_enter:
@@ -80,24 +90,25 @@ class ObsHarness(planh.PlanHarness):
                     raise ObserverStartError(f"observer {rid} cannot start")
 
             def __exit__(self_, et, ev, tb):
-                s.log("obsid", rid, "exit", getattr(et, "__name__", None))
+                s.log("obsid", self_.rid, "exit", getattr(et, "__name__", None))
                 e1.hpoint("obs.exit")
 
             def increment_total(self_, *, section, scope, amount):
-                s.log("obsid", rid, "total", section, scope, amount)
+                s.log("obsid", self_.rid, "total", section, scope, amount)
 
             def increment_running(self_, *, section, scope):
-                s.log("obsid", rid, "running", section, scope)
+                s.log("obsid", self_.rid, "running", section, scope)
                 e1.hpoint("obs.running")
 
             def increment_completed(self_, *, section, scope):
-                s.log("obsid", rid, "completed", section, scope)
+                s.log("obsid", self_.rid, "completed", section, scope)
                 e1.hpoint("obs.completed")
 
             def increment_failed(self_, *, section, scope, exception):
-                s.log("obsid", rid, "failed", section, scope, type(exception).__name__)
+                s.log("obsid", self_.rid, "failed", section, scope, type(exception).__name__)
                 e1.hpoint("obs.failed")
 
+        rid_base = rid
         return Progress(Recorder)
 
     def run_kwargs(self):
@@ -105,7 +116,9 @@ class ObsHarness(planh.PlanHarness):
         if self.registry is not None:
             kw["registry"] = self.registry
         ob = self.cfg["observer"]
-        if ob.startswith("list"):
+        if ob == "reuse-composite":
+            kw["progress"] = self.reused_progress
+        elif ob.startswith("list"):
             # progress given as a list of members (coerced to a composite); optionally one member fails to start
             s = e1.sched()
             k = int(ob[4]) if len(ob) > 4 and ob[4].isdigit() else 3
@@ -114,14 +127,23 @@ class ObsHarness(planh.PlanHarness):
         return kw
 
     def body(self, ctx):
-        import uberjob
-        from uberjob.graph import Call
+        if self.cfg["observer"] == "reuse-composite":
+            # ONE explicitly built composite Progress used for two runs: every run must get its own observers
+            from uberjob.progress import composite_progress
 
-        # number of Call nodes the stale check examines: every call of the plan as run() sees it (output gather included)
-        try:
-            return super().body(ctx)
-        finally:
-            pass
+            s = e1.sched()
+            ids = []
+            self.reused_progress = composite_progress(self.make_recorder_id(s, "A", fresh_ids=ids), self.make_recorder_id(s, "B", fresh_ids=ids))
+            s.log("RUN", 1)
+            try:
+                super().body(ctx)
+                s.log("RUN1", "ret")
+            except BaseException as e:  # noqa
+                if isinstance(e, e1.Abort):
+                    raise
+                s.log("RUN1", "exc", e)
+            s.log("RUN", 2)
+        return super().body(ctx)
 
     def check(self, x):
         s = x.sched
@@ -132,6 +154,17 @@ class ObsHarness(planh.PlanHarness):
         okey = (x.status, order, mr and mr[0])
         if x.status != "ok":
             return msgs, okey
+        if self.cfg["observer"] == "reuse-composite":
+            k = next(i for i, e in enumerate(ev) if e == ("RUN", 2))
+            r1 = next(e for e in ev if e[0] == "RUN1")
+            bad = self.check_members(ev[:k], ("ret", None) if r1[1] == "ret" else ("exc", r1[2]), strict_result=False)
+            msgs = [(t, m) for t, m in msgs if "after run returned" not in m]  # two runs in one execution
+            ids1 = {e[1] for e in ev[:k] if e[0] == "obsid"}
+            ids2 = {e[1] for e in ev[k:] if e[0] == "obsid"}
+            if ids1 & ids2:
+                msgs.append(("C15", f"observers are single-use, but the observer instances {sorted(ids1 & ids2)} of the first run were entered again and notified by the second run of the same composite Progress"))
+            return msgs + [(t, "first run with a reused composite Progress: " + m) for t, m in bad] + \
+                [(t, "second run with the same composite Progress: " + m) for t, m in self.check_members(ev[k:], mr)], okey
         if self.cfg["observer"].startswith("list"):
             return msgs + self.check_members(ev, mr), okey
         obs = [e[1:] for e in ev if e[0] == "obs"]
@@ -170,7 +203,7 @@ class ObsHarness(planh.PlanHarness):
                 msgs.append(("C15", "'stale' totals announced although no registry was given"))
         return msgs, okey
 
-    def check_members(self, ev, mr):
+    def check_members(self, ev, mr, strict_result=True):
         """progress=[m0, m1, ...]: every member that was entered is exited exactly once, after everything else it
         received; all members that started receive identical notifications; a member failing to start fails the run."""
         msgs = []
@@ -314,7 +347,7 @@ def cfgs(tier, W):
             for stored in stored_opts:
                 obs_opts = ("rec", "rec2") if (W == 1 or tier != "quick") else ("rec",)
                 if W == 1 and stored is None and (me == 0 or tier != "quick"):
-                    obs_opts += ("list3", "list3fail1", "list3fail2", "list2fail0")
+                    obs_opts += ("list3", "list3fail1", "list3fail2", "list2fail0", "reuse-composite")
                 for obs in obs_opts:
                     if stored and obs == "rec2" and tier == "quick":
                         continue
